@@ -42,7 +42,8 @@ def bootstrap():
         if p in sys.path:
             sys.path.remove(p)
         sys.path.insert(0, p)
-    os.environ["SOURCE_DATE_EPOCH"] = EPOCH
+    if os.environ.get("VMON_EPOCH_OVERRIDE") != "1":     # a check that sweeps the epoch passes its own value
+        os.environ["SOURCE_DATE_EPOCH"] = EPOCH
     os.environ[GUARD] = "1"
     import logging
 
